@@ -386,7 +386,7 @@ impl ThreadPool {
     {
         let job = Box::new(f);
         self.sender.send(Message::NewJob(job)).unwrap();
-        if ((self.num_busy() + 1) >= self.workers.len()) && (self.workers.len() <= self.max_workers)
+        if ((self.num_busy() + 1) >= self.workers.len()) && (self.workers.len() < self.max_workers)
         {
             self.workers.push(Worker::new(
                 Arc::clone(&self.receiver),
